@@ -151,7 +151,7 @@ def worker_main(prop, tier, w, nworkers, active, out_path, only=None):
         t0 = time.time()
         deadline = t0 + sub.wall[tier]
         ignored = set()
-        state = {"best": None, "shrink_calls": 0, "failing": None}
+        state = {"shrink_calls": 0, "failing": None}
         shrink_budget = 400 if tier == "quick" else 1500
 
         def run_one(plan):
@@ -203,7 +203,8 @@ def worker_main(prop, tier, w, nworkers, active, out_path, only=None):
         per_worker = max(1, -(-total // nw))
         max_rounds = 2 if tier == "quick" else 4
         for rnd in range(max_rounds):
-            state.update(best=None, shrink_calls=0, failing=None)
+            state.update(shrink_calls=0, failing=None)
+            failed_hashes = set()
             strat = sub.strategy(tier, ctx)
 
             def body(plan):
@@ -212,14 +213,14 @@ def worker_main(prop, tier, w, nworkers, active, out_path, only=None):
                     return
                 if state["failing"] is not None:
                     state["shrink_calls"] += 1
-                    if state["shrink_calls"] > shrink_budget and plan != state["best"]:
-                        return  # stop the shrinker: only the best plan found so far still fails
+                    if state["shrink_calls"] > shrink_budget and plan_hash(plan) not in failed_hashes:
+                        return  # stop the shrinker: only plans already seen failing still fail
                 try:
                     run_one(plan)
                 except Violation as v:
                     state["failing"] = v
-                    state["best"] = plan
-                    state["best_v"] = v
+                    failed_hashes.add(plan_hash(plan))
+                    v.plan = plan
                     raise
 
             test = given(strat)(body)
@@ -232,12 +233,11 @@ def worker_main(prop, tier, w, nworkers, active, out_path, only=None):
             try:
                 test()
                 break
-            except Violation:
-                v = state["best_v"]
+            except Violation as v:
                 b = "%s:%s" % (sub.name, v.bucket)
                 ignored.add(b)
                 res["violations"].append({"subcheck": sub.name, "bucket": b, "clause": v.clause,
-                                          "detail": v.detail[:2000], "plan": state["best"]})
+                                          "detail": v.detail[:2000], "plan": v.plan})
             except Exception:
                 res["errors"].append({"subcheck": sub.name, "trace": traceback.format_exc()[-4000:]})
                 break
